@@ -48,6 +48,7 @@ for base in 'ABCDEFGHIJKLMNOPQRSTUVWXYZ':
     LETTER_ODD[base] = alts
 HOMO = {'A': 'ΑА', 'B': 'ΒВ', 'C': 'СϹ', 'E': 'ΕЕ', 'H': 'ΗН', 'I': 'ΙІıİ', 'J': 'Ј', 'K': 'ΚКK', 'M': 'ΜМ', 'N': 'Ν', 'O': 'ΟО',
         'P': 'ΡР', 'S': 'Ѕſ', 'T': 'ΤТ', 'X': 'ΧХ', 'Y': 'ΥҮ', 'Z': 'Ζ'}
+ALLHOMO = sorted(set(''.join(HOMO.values())))
 COMBINING = ['́', '̈', '⃝', '‍', '︎']
 
 
@@ -57,7 +58,8 @@ def prop(case, res):
     x = core.dec(case['x'])
     res.evals += 1
     res.nt(name, x)
-    o = core.out(m.validate, x)
+    opts = gen.dec_opts(case.get('opts') or {})
+    o = core.out(m.validate, x, **opts)
     if o[0] == 'EXC':
         res.hist['skipped:non-ValidationError (C01)'] += 1
         return
@@ -73,7 +75,12 @@ def prop(case, res):
     # bucket: module + relative slice of the canonical form + character category
     cat = unicodedata.category(bad[0])
     kind = 'digit' if cat[0] == 'N' else 'letter' if cat[0] == 'L' else 'other'
-    res.violation('%s|non-ascii-returned|%s' % (name, kind), 'c15', case,
+    optkey = ''
+    if opts:
+        d = core.out(m.validate, x)
+        if not (d[0] == 'ok' and isinstance(d[1], str) and not d[1].isascii()):
+            optkey = '|opts=' + ','.join(sorted(opts))  # only the option lets it through
+    res.violation('%s|non-ascii-returned|%s%s' % (name, kind, optkey), 'c15', case,
                   {'input': x, 'returned': v, 'char': 'U+%04X %s' % (ord(bad[0]), unicodedata.name(bad[0], '?'))})
 
 
@@ -91,6 +98,10 @@ def shard(a):
     raw = [x for x in gen.accepted_seeds(name)[:a['nnum']] if x not in nums]
     if len(gen.pool(name)) > a['nnum']:
         nums += rnd.sample(gen.pool(name)[a['nnum']:], min(a['nnum'], len(gen.pool(name)) - a['nnum']))
+    edge = [e for e in gen.edge_pool(name) if any(c.isalpha() for c in e[:2] + e[-2:])]
+    nums += rnd.sample(edge, min(len(edge), a['nnum'] * 3))
+    optlists = [o for o in gen.option_lists(name) if o and 'alphabet' not in o and 'table' not in o]
+    hom_budget = [a['nnum'] * 2]
     for x in nums + raw[:a['nnum'] // 2]:
         for i, c in enumerate(x):
             subs = []
@@ -105,15 +116,30 @@ def shard(a):
                     subs.append(c + rnd.choice(COMBINING))
             elif c.isalpha() and c.isascii():
                 u = c.upper()
-                alts = LETTER_ODD.get(u, []) + list(HOMO.get(u, ''))
-                subs += rnd.sample(alts, min(len(alts), a['scripts']))
+                alts = LETTER_ODD.get(u, [])
+                subs += list(HOMO.get(u, '')) + rnd.sample(alts, min(len(alts), a['scripts']))
                 subs += rnd.sample(['ß', 'ŉ', 'ǰ', 'ǅ', 'ﬁ'], 1)
                 if c.islower():
                     pass
                 else:
                     subs = subs + [s.lower() for s in subs[:2]]
+            if c.isalpha() and c.isascii() and hom_budget[0] > 0:
+                # any homoglyph (not only those of the letter that is there) with the last character re-fitted: a look-alike
+                # that slipped into the module's own alphabet is only accepted together with the check character that fits it
+                hom_budget[0] -= 1
+                cl = gen.cls(x[-1]) if i != len(x) - 1 else None
+                for h in ALLHOMO:
+                    y = x[:i] + h + x[i + 1:]
+                    prop({'mod': name, 'x': core.enc(y)}, res)
+                    if cl:
+                        for c2 in cl:
+                            if c2 != x[-1]:
+                                prop({'mod': name, 'x': core.enc(y[:-1] + c2)}, res)
             for s in subs:
                 prop({'mod': name, 'x': core.enc(x[:i] + s + x[i + 1:])}, res)
+                if optlists and (i < 2 or i >= len(x) - 2 or rnd.random() < .2):
+                    # non-default option values may switch a gate off (e.g. validate_check_digits=False)
+                    prop({'mod': name, 'x': core.enc(x[:i] + s + x[i + 1:]), 'opts': rnd.choice(optlists)}, res)
     # Hypothesis part: hostile edits (anything accepted is in the domain)
     strat = st.fixed_dictionaries({'mod': st.just(name), 'x': gen.edits(st.one_of(gen.valid_numbers(name), st.sampled_from(gen.seeds(name)))).map(core.enc)})
     core.drive(prop, strat, a['n'], (a['seed'], 'C15', name), res, shrink_skip=a['known'])
